@@ -33,7 +33,9 @@ def gen_cases(ck, tier, seed, tmp, want_fired=True):
             ck.violation("TLC: %s violated in GdlRef (seeded programs)" % r.violation, {"why": "GdlRef model", "trace": vlib.tlc_error_trace(r.out)})
             return None
         ck.add_tlc("GdlRef/seeded structured programs, all texts (rtl=%d)" % rtl, r)
-        seeded += [c for c in r.emitted if c["fired"] > 0]
+        part = [c for c in r.emitted if c["fired"] > 0]
+        random.Random(seed + rtl).shuffle(part)
+        seeded += part[:(6000 if q else 200000)]          # every seed source keeps its own share of the replay budget
     # feature-selected rules and SET_FEAT, every initial feature vector
     out = os.path.join(tmp, "seedf.ndjson")
     cfg = utfcommon.cfg_with("GdlRef_seedf.cfg", tmp, MaxText=3 if q else 4)
@@ -45,7 +47,9 @@ def gen_cases(ck, tier, seed, tmp, want_fired=True):
         ck.violation("TLC: %s violated in GdlRef (feature programs)" % r.violation, {"why": "GdlRef model", "trace": vlib.tlc_error_trace(r.out)})
         return None
     ck.add_tlc("GdlRef/feature-selected rules, all texts and feature vectors", r)
-    seeded += [c for c in r.emitted if c["fired"] > 0]
+    part = [c for c in r.emitted if c["fired"] > 0]
+    random.Random(seed + 7).shuffle(part)
+    seeded += part[:(3000 if q else 100000)]
     # cursor-returning rules all along long texts (the loop counter of a pass must count consecutive steps only)
     out = os.path.join(tmp, "seedloop.ndjson")
     r = vlib.tlc("GdlRefMC.tla", "GdlRef_seedloop.cfg", out_file=out, timeout=6000, coverage=False, heap="24g")
@@ -71,7 +75,7 @@ def gen_cases(ck, tier, seed, tmp, want_fired=True):
     idle = [c for c in allc if c["fired"] == 0]
     n = 5000 if q else 120000
     rng.shuffle(seeded)
-    return fired[:n] + idle[:n // 10] + loop_front + seeded[:(12000 if q else 400000)]
+    return fired[:n] + idle[:n // 10] + loop_front + seeded
 
 
 def write_cases(cases, path, rng=None, variants=False):
